@@ -14,9 +14,11 @@ import (
 	"os"
 	"path/filepath"
 	"runtime"
+	"runtime/debug"
 	"sort"
 	"strings"
 	"testing"
+	"time"
 
 	"github.com/influxdata/influxdb/v2/tsdb"
 	"github.com/influxdata/influxdb/v2/tsdb/engine/tsm1"
@@ -393,6 +395,17 @@ func fmtOutputs(outs [][]tsmkit.RawKey) string {
 
 // ---- running the compactor ----
 
+const gcEvery = 48
+
+var gcCount int
+
+// gcTick is called once per written output; see the comment in Run.
+func gcTick() {
+	if gcCount++; gcCount%gcEvery == 0 {
+		runtime.GC()
+	}
+}
+
 type env struct {
 	outDir string
 	comp   *tsm1.Compactor
@@ -408,6 +421,7 @@ func newEnv(outDir string) *env {
 // compact runs one compaction and returns the parsed outputs; the output files are removed.
 // keep lists file names that legitimately live in outDir (inputs when they share the directory).
 func (e *env) compact(fs *tsm1.FileStore, paths []string, fast bool, ppb int, keep map[string]bool, crossCheck bool) (outs [][]tsmkit.RawKey, fnds []finding) {
+	gcTick()
 	e.comp.FileStore = fs
 	var files []string
 	var err error
@@ -590,7 +604,10 @@ func sigOf(cs Case, f finding) string {
 	if f.feature != "" {
 		parts = append(parts, f.feature)
 	}
-	parts = append(parts, featuresOf(cs))
+	// pass-through of an oversized input block does not depend on the shape of the file set
+	if !(f.clause == "block-exceeds-points-per-block" && f.feature == "passthrough-of-input-block=true") {
+		parts = append(parts, featuresOf(cs))
+	}
 	return vlib.JoinSig(parts...)
 }
 
@@ -802,7 +819,9 @@ func exploreCompactions(c *vlib.Ctx, scratch string, idx *int64, via string, nfi
 		return false
 	}
 	defer p.close()
+	t0 := time.Now()
 	c.Logf("%s: pool of %d variants x %d positions built", what, len(vs.specs), nfiles)
+	defer func() { c.Logf("%s: finished after %s", what, time.Since(t0)) }()
 	tl := &tally{oc: map[ocKey]int64{}}
 	defer tl.flush(c)
 	outDir := filepath.Join(scratch, "out")
@@ -948,6 +967,7 @@ func cacheOf(batches []FileSpec) (*tsm1.Cache, error) {
 // runCacheCase: kind snapshot (WriteSnapshot as the engine does: Snapshot, Deduplicate, WriteSnapshot)
 // or cacheiter (NewCacheKeyIterator with a small block size, drained directly).
 func runCacheCase(e *env, fs *tsm1.FileStore, cs Case) (outs [][]tsmkit.RawKey, fnds []finding) {
+	gcTick()
 	cache, err := cacheOf(cs.Files)
 	if err != nil {
 		return nil, []finding{{"error", "", "Cache.WriteMulti: " + err.Error()}}
@@ -1045,6 +1065,8 @@ func exploreCache(c *vlib.Ctx, scratch string, idx *int64, maxT int, what string
 		}
 		return n(batches[i]) < n(batches[j])
 	})
+	t0 := time.Now()
+	defer func() { c.Logf("%s: finished after %s", what, time.Since(t0)) }()
 	tl := &tally{oc: map[ocKey]int64{}}
 	defer tl.flush(c)
 	outDir := filepath.Join(scratch, "snap")
@@ -1155,6 +1177,7 @@ func rolloverFiles(dir string, cs Case) (paths []string, model map[string]*keyMo
 func runRollover(cs Case) (outs [][]tsmkit.RawKey, fnds []finding, extra string) {
 	dir := vlib.Scratch("c04-roll-")
 	defer os.RemoveAll(dir)
+	defer runtime.GC()
 	paths, model, err := rolloverFiles(dir, cs)
 	if err != nil {
 		return nil, []finding{{"harness", "", err.Error()}}, ""
@@ -1207,6 +1230,8 @@ func rolloverCases() []Case {
 }
 
 func exploreRollover(c *vlib.Ctx, idx *int64) bool {
+	t0 := time.Now()
+	defer func() { c.Logf("[R] finished after %s", time.Since(t0)) }()
 	tl := &tally{oc: map[ocKey]int64{}}
 	defer tl.flush(c)
 	for _, cs := range rolloverCases() {
@@ -1305,13 +1330,13 @@ func TestCheck(t *testing.T) {
 	vlib.Main(t, &vlib.Check{
 		ID: "C04", Level: "exploration",
 		Rule: "input file = per key any non-empty subset of timestamps {1..N} split into 1-2 contiguous blocks, values (file#,t), written with the real TSMWriter/Tombstoner. Families: " +
-			"[S] 'same-layout': 5 keys (one per block type) sharing the layout (N=5: 80 layouts, N=4: 32, N=3: 12) x tombstone set in {none, whole key, [2,3], [1,1], [N,N+4], [1,1]+[2,3]}; " +
+			"[S] 'same-layout': 5 keys (one per block type) sharing the layout (N=5: 80 layouts, N=4: 32, N=3: 12, N=2: 4) x tombstone set in {none, whole key, [2,3], [1,1], [N,N+4], [1,1]+[2,3]}; " +
 			"[K] 'two-keys': a Float and an Integer key with independent layouts (either may be absent) x tombstone set in {none, whole keys, [1,1], [2,3]}; " +
 			"every ordered tuple of files x {CompactFull, CompactFast} x pointsPerBlock in {1,2,3,1000} (the optimize strategy is CompactFull with a non-default pointsPerBlock) through the real Compactor; " +
 			"[C] cache: 1-2 WriteMulti batches, each giving a Float and an Integer key any subset of {1..N} (not both empty) in ascending or descending order, snapshotted as the engine does and written with Compactor.WriteSnapshot, plus NewCacheKeyIterator with block size 1,2,3; " +
 			"[R] roll-over at the real 65535 blocks-per-key limit: two files with n in {65534,65535,65536,65537,70000} one-point blocks of one key in total, with/without a following second key, x {CompactFast, CompactFull ppb=1, CompactFull ppb=1 with a tombstone forcing the decode path}. " +
-			"QUICK: [S] pairs N=3 via FileStore.Open in one directory (outputs also cross-read with TSMReader BlockIterator+ReadAll for ppb=2); [S] pairs N=4 all 6x6 tombstone combinations; [K] pairs N=2; [C] N=3; [R]. " +
-			"THOROUGH: [S] pairs N=4 via FileStore.Open; [S] pairs N=5; [S] triples N=3; [S] triples N=4 with tombstones on <=1 file; [K] pairs N=3 with tombstones on <=1 file; [C] N=4; [R]. Except where noted inputs are real TSMReaders opened once per variant and handed to a FileStore in path order. " +
+			"QUICK: [S] pairs N=2 via FileStore.Open in one directory (outputs also cross-read with TSMReader BlockIterator+ReadAll for ppb=2); [S] pairs N=4 with a tombstone set on at most one file; [K] pairs N=2; [C] N=3; [R]. " +
+			"THOROUGH: [S] pairs N=3 via FileStore.Open; [S] pairs N=4 and N=5 with all 6x6 tombstone combinations; [S] triples N=3; [S] triples N=4 without tombstones; [K] pairs N=3 with tombstones on <=1 file; [C] N=4; [R]. Except where noted inputs are real TSMReaders opened once per variant and handed to a FileStore in path order. " +
 			"One evaluation = one compaction/snapshot run, its outputs parsed from the file bytes and compared with the newest-file-wins merge minus tombstones; non-trivial = runs whose inputs hold overlapping blocks of one key in two files or a partially tombstoned block (distinct by construction)",
 		Assumptions: []string{
 			"a point is live in a file when no tombstone range of that file covers it; where the newest file holding a timestamp has it tombstoned but an older file holds it live the statement is silent and both answers are accepted",
@@ -1324,25 +1349,38 @@ func TestCheck(t *testing.T) {
 		},
 		QuickBudgetS: 45, ThoroughBudgetS: 800,
 		Run: func(c *vlib.Ctx) {
+			t0 := time.Now()
+			defer func() { c.Logf("shard %d done after %s", c.Shard, time.Since(t0)) }()
 			runtime.GOMAXPROCS(2)
+			// Every TSM file the compactor writes allocates ~2 MB of buffers. With the default GC pacing the
+			// runtime hands those pages back to the OS and faults them in again for every case, which
+			// dominates the run in this VM. Collect by hand every gcEvery compactions instead (see gcTick).
+			debug.SetGCPercent(-1)
+			debug.SetMemoryLimit(1 << 30) // safety net only
 			scratch := vlib.Scratch("c04-")
 			defer os.RemoveAll(scratch)
 			var idx int64
+			// VERIF_C04_PHASES (debugging only): comma-separated phase letters to run, e.g. "S,K"
+			on := func(ph string) bool {
+				f := os.Getenv("VERIF_C04_PHASES")
+				return f == "" || strings.Contains(f, ph)
+			}
 			if c.Quick() {
-				_ = exploreRollover(c, &idx) &&
-					exploreCompactions(c, scratch, &idx, viaOpen, 2, spaceSameLayout(3), -1, "[S] pairs N=3 via FileStore.Open") &&
-					exploreCompactions(c, scratch, &idx, viaPooled, 2, spaceTwoKeys(2), -1, "[K] pairs N=2") &&
-					exploreCache(c, scratch, &idx, 3, "[C] N=3") &&
-					exploreCompactions(c, scratch, &idx, viaPooled, 2, spaceSameLayout(4), -1, "[S] pairs N=4")
+				_ = (!on("R") || exploreRollover(c, &idx)) &&
+					(!on("O") || exploreCompactions(c, scratch, &idx, viaOpen, 2, spaceSameLayout(2), -1, "[S] pairs N=2 via FileStore.Open")) &&
+					(!on("K") || exploreCompactions(c, scratch, &idx, viaPooled, 2, spaceTwoKeys(2), -1, "[K] pairs N=2")) &&
+					(!on("C") || exploreCache(c, scratch, &idx, 3, "[C] N=3")) &&
+					(!on("S") || exploreCompactions(c, scratch, &idx, viaPooled, 2, spaceSameLayout(4), 1, "[S] pairs N=4 (tombstones on <=1 file)"))
 				return
 			}
-			_ = exploreRollover(c, &idx) &&
-				exploreCompactions(c, scratch, &idx, viaOpen, 2, spaceSameLayout(4), -1, "[S] pairs N=4 via FileStore.Open") &&
-				exploreCache(c, scratch, &idx, 4, "[C] N=4") &&
-				exploreCompactions(c, scratch, &idx, viaPooled, 2, spaceTwoKeys(3), 1, "[K] pairs N=3 (tombstones on <=1 file)") &&
-				exploreCompactions(c, scratch, &idx, viaPooled, 2, spaceSameLayout(5), -1, "[S] pairs N=5") &&
-				exploreCompactions(c, scratch, &idx, viaPooled, 3, spaceSameLayout(3), -1, "[S] triples N=3") &&
-				exploreCompactions(c, scratch, &idx, viaPooled, 3, spaceSameLayout(4), 1, "[S] triples N=4 (tombstones on <=1 file)")
+			_ = (!on("R") || exploreRollover(c, &idx)) &&
+				(!on("O") || exploreCompactions(c, scratch, &idx, viaOpen, 2, spaceSameLayout(3), -1, "[S] pairs N=3 via FileStore.Open")) &&
+				(!on("C") || exploreCache(c, scratch, &idx, 4, "[C] N=4")) &&
+				(!on("K") || exploreCompactions(c, scratch, &idx, viaPooled, 2, spaceTwoKeys(3), 1, "[K] pairs N=3 (tombstones on <=1 file)")) &&
+				(!on("S") || exploreCompactions(c, scratch, &idx, viaPooled, 2, spaceSameLayout(4), -1, "[S] pairs N=4")) &&
+				(!on("S") || exploreCompactions(c, scratch, &idx, viaPooled, 2, spaceSameLayout(5), -1, "[S] pairs N=5")) &&
+				(!on("S") || exploreCompactions(c, scratch, &idx, viaPooled, 3, spaceSameLayout(3), -1, "[S] triples N=3")) &&
+				(!on("S") || exploreCompactions(c, scratch, &idx, viaPooled, 3, spaceSameLayout(4), 0, "[S] triples N=4 without tombstones"))
 		},
 		Replay: func(c *vlib.Ctx, raw json.RawMessage) (bool, string) {
 			var cs Case
